@@ -140,6 +140,10 @@ func SharedOp(r *Rng, s *jsonapi.Schema, ts []stype, o *Out) string {
 		if r.bool() {
 			raw += "?sort=id&page[size]=2&include=" + fieldNames[r.IntN(len(fieldNames))]
 		}
+		if r.chance(1, 3) {
+			// relationship URLs on the hand-written type, the unnamed relationship included
+			raw = "/joins/1/" + []string{"", "relationships/"}[r.IntN(2)] + []string{"left", "right", "back", "unnamed"}[r.IntN(4)]
+		}
 		_, _ = jsonapi.NewURLFromRaw(s, raw)
 		return "NewURLFromRaw"
 	case 5:
@@ -194,6 +198,8 @@ func addBareTypes(r *Rng, s *jsonapi.Schema) {
 	// them; no query may fill the blank in)
 	putRel(&onlyRels, jsonapi.Rel{FromName: "right", ToOne: true, ToType: "joins", ToName: "back"})
 	putRel(&onlyRels, jsonapi.Rel{FromName: "back", ToOne: false, ToType: "joins", ToName: "right", FromOne: true})
+	// a relationship written in a map literal under its key, FromName left out
+	onlyRels.Rels["unnamed"] = jsonapi.Rel{ToOne: true, ToType: "bare"}
 	putType(s, onlyRels)
 }
 
